@@ -11,8 +11,9 @@
  *                                reference, the basic inode type of the mode
  *                                and the name (copied with its full length);
  *                                entry count + 1; list linkage intact
- *  C03.dir.add_entry.refused     unsupported mode, empty name, inode number 0
- *                                or allocation failure: error, writer unchanged
+ *  C03.dir.add_entry.refused     unsupported mode, empty or over-long name,
+ *                                inode number 0 or allocation failure: error,
+ *                                writer unchanged; nothing else is refused
  */
 #include <stdlib.h>
 #include <string.h>
@@ -100,7 +101,7 @@ void harness(void)
 	int ret;
 
 	g_name_len = verif_nd_size("name_len");
-	g_name_first = (char)verif_nd_u8("name0");
+	*(sqfs_u8 *)&g_name_first = verif_nd_u8("name0");
 	VERIF_ASSUME((g_name_len == 0) == (g_name_first == '\0'));
 	g_w.base.refcount = 1;
 	g_w.dm = &g_dm;
@@ -144,7 +145,8 @@ void harness(void)
 			     g_w.list_end == (had_tail ? &g_tail.e : NULL) &&
 			     g_tail.e.next == NULL &&
 			     (basic_type_of(mode) < 0 || g_name_len == 0 ||
-			      inode_num == 0 || g_alloc_calls == 1),
+			      g_name_len > 65536 || inode_num == 0 ||
+			      g_alloc_calls == 1),
 			     "C03.dir.add_entry.refused");
 		VERIF_COVER(ret == SQFS_ERROR_UNSUPPORTED);
 		VERIF_COVER(ret == SQFS_ERROR_ARG_INVALID && inode_num == 0);
